@@ -138,6 +138,13 @@ func cmdCheck(args []string) {
 	rep.prelude = prelude
 	altWorld = w
 	solveAll(rep.vcs, prelude, filepath.Join(outDir, "smt"), timeout, seed, 16, two)
+	if os.Getenv("VERIF_TIMING") != "" {
+		for _, vc := range rep.vcs {
+			if vc.TimeS > 1.5 {
+				fmt.Printf("SLOW %.1fs %s %s %s\n", vc.TimeS, vc.Status, vc.Solver, vc.Name)
+			}
+		}
+	}
 	// bounded stand-ins
 	rep.bounded = runBounded(w, prop, tier, seed, replayDir)
 	code := rep.finish(evFile)
